@@ -153,9 +153,31 @@ def literal(kind, arg, j, i):
     raise ValueError(kind)
 
 
+ALLVAL = {
+    # every value of the fixed part of a partly fixed byte (the other field is Any): all 2**w literals
+    "k_all_1_7": ("x = Bits(1)\n    y = Bits(7)", "y", 7, ["x", "y"], 1),
+    "k_all_7_1": ("x = Bits(7)\n    y = Bits(1)", "x", 7, ["x", "y"], 1),
+    "k_all_4_4": ("x = Bits(4)\n    y = Bits(4)", "x", 4, ["x", "y"], 1),
+    "k_all_2_3_3": ("x = Bits(2)\n    y = Bits(3)\n    z = Bits(3)", "y", 3, ["x", "y", "z"], 1),
+    "k_all_int1": ("a = Int(1)\n    d = Data(1)", "a", 8, ["a", "d"], 2),
+}
+
+
 def build(tier, seed):
     obs = []
     nlit = 3 if tier == "quick" else 4
+    for key, (body, fixed, w, names, lmax) in ALLVAL.items():
+        patterns = [{fixed: v} for v in range(1 << w)]
+        src = SRC % dict(opts="'generate_for_pack': False, 'generate_for_unpack': False", body=body, patterns=patterns, fields=names,
+                         key=key, lengths=[lmax], lmax=lmax, ncorpus=0, c1=lmax, c2=max(0, lmax - 1))
+        base = {"module": "c18_%s" % key, "source": src, "decl_text": "class K(Packet):\n    " + body}
+        obs.append(dict(base, id="C18/%s/build" % key, fn="build_all", required_tags=["built"], symbolic=False,
+                        bound="all %d values of field %s, the other field(s) Any" % (1 << w, fixed), assertion="as_regular_expression() does not raise"))
+        for b in range(0, len(patterns), 32):
+            fns = ["m%d_T%d" % (ix, lmax) for ix in range(b, min(len(patterns), b + 32))]
+            obs.append(dict(base, id="C18/%s/match-%02d" % (key, b // 32), fn=fns, required_tags=["matched"],
+                            bound="literal values %d..%d of %s (ALL values are covered across the batches); candidate raw symbolic (%d byte)"
+                                  % (b, b + 31, fixed, lmax), assertion="pattern == unpack(raw)  =>  regexp matches raw"))
     for key, (body, fields, lmax) in DECLS.items():
         names = [f[0] for f in fields]
         patterns = []
